@@ -43,7 +43,7 @@ ASSUMPTIONS = [
 ]
 REACH = {t: ["versions_11", "nv3_present", "nv3_absent", "link_keys_written", "children_written", "hashed_present",
              "hashed_absent", "tc_address_unknown", "eui64_rewritten", "eui64_not_writable", "start_blank",
-             "start_existing", "frame_counter_checked", "children_checked", "security_state_decoded",
+             "start_existing", "several_restores_on_one_ncp", "restore_again_for_the_restored_address", "frame_counter_checked", "children_checked", "security_state_decoded",
              "link_key_refused_midway", "zero_frame_counter_over_existing_network", "boundary_key_values"]
          for t in ("quick", "thorough")}
 SHARD_TIMEOUT = {"quick": 900, "thorough": 3600}
@@ -85,167 +85,190 @@ def run_shard(desc) -> Acc:
             acc.violation("C14/setup/fault-free-connect-failed", repr(ex), case)
             return
         app, ncp, net = ap.app, ap.ncp, ap.net
-        cur_eui = bytes(net.eui64())
-        # ---- generate
-        kts = 12 if V == 7 else 4
-        nkeys = rnd.choice([0, 1, 2, kts])
-        nchild = rnd.choice([0, 1, 3, 6])
-        hashed = rnd.randbytes(16).hex() if rnd.random() < 0.6 else None
-        same_ieee = rnd.random() < 0.4
-        node_ieee = cur_eui if same_ieee else bytes([0xC0 + it % 16]) + rnd.randbytes(7)
-        tc_unknown = rnd.random() < 0.3
-        tc_key = WELL_KNOWN if V > 4 else rnd.randbytes(16)
-        E = lambda b: zt.EUI64.deserialize(bytes(b))[0]  # noqa: E731
-        K = lambda b: zt.KeyData.deserialize(bytes(b))[0]  # noqa: E731
-        special_keys = [bytes(16), b"\xff" * 16, bytes(range(16)), WELL_KNOWN]
-        nwk_key = rnd.choice([rnd.randbytes(16)] * 3 + special_keys[:3])
-        link_keys = [(rnd.choice([rnd.randbytes(16)] * 4 + special_keys), bytes([0xD0 + i]) + rnd.randbytes(7)) for i in range(nkeys)]
-        if nwk_key in special_keys or any(k_ in special_keys for k_, _ in link_keys):
-            acc.hit("boundary_key_values")
-        refused = None
-        if nkeys >= 2 and rnd.random() < 0.4:
-            # the NCP refuses one link key that is not the last one (whatever its reason): the
-            # keys it does accept - before and after - must still make the round trip
-            refused = link_keys[rnd.randrange(nkeys - 1)][1]
-            net.refuse_partners[refused] = rnd.choice(["invalid_call", "fatal", "bad_argument"])
-        children = [bytes([0xE0 + i]) + rnd.randbytes(7) for i in range(nchild)]
-        child_addr = {c: rnd.randrange(1, 0xFFF0) for i, c in enumerate(children) if i % 3 != 2}
-        w = dict(pan_id=rnd.choice([1, 0xFFFE - 1, 0x0000, rnd.randrange(1, 0xFFFE), rnd.randrange(1, 0xFFFE)]),
-                 ext=rnd.choice([rnd.randbytes(8), rnd.randbytes(8), bytes(8), bytes([1]) + bytes(7)]), channel=rnd.randrange(11, 27),
-                 mask=rnd.choice([0x07FFF800, 1 << 15, (1 << 11) | (1 << 25), 1 << 26, 1 << 11]), update_id=rnd.choice([0, 255, rnd.randrange(256)]),
-                 nwk_key=nwk_key, nwk_seq=rnd.choice([0, 255, rnd.randrange(256)]),
-                 nwk_fc=rnd.choice([0, 0, 1, 0xFFFFFFFF, rnd.getrandbits(32), rnd.getrandbits(32)]),
-                 tc_fc=rnd.choice([0, rnd.getrandbits(32)]))
-        ni = zigpy.state.NetworkInfo(
-            extended_pan_id=zt.ExtendedPanId.deserialize(w["ext"])[0], pan_id=zt.PanId(w["pan_id"]),
-            nwk_update_id=zt.uint8_t(w["update_id"]), nwk_manager_id=zt.NWK(0x0000), channel=zt.uint8_t(w["channel"]),
-            channel_mask=zt.Channels(w["mask"]), security_level=zt.uint8_t(5),
-            network_key=zigpy.state.Key(key=K(nwk_key), tx_counter=w["nwk_fc"], seq=w["nwk_seq"]),
-            tc_link_key=zigpy.state.Key(key=K(tc_key), tx_counter=w["tc_fc"], partner_ieee=E(UNKNOWN if tc_unknown else node_ieee)),
-            key_table=[zigpy.state.Key(key=K(k), partner_ieee=E(p), tx_counter=0, rx_counter=0) for k, p in link_keys],
-            children=[E(c) for c in children], nwk_addresses={E(c): zt.NWK(a) for c, a in child_addr.items()},
-            stack_specific={"ezsp": {"hashed_tclk": hashed}} if hashed else {}, source="rtmon")
-        no = zigpy.state.NodeInfo(nwk=zt.NWK(0x0000), ieee=E(node_ieee), logical_type=zdo_t.LogicalType.Coordinator)
-        case["written"] = {k: (v.hex() if isinstance(v, bytes) else v) for k, v in w.items()}
-        case["written"].update(link_keys=[(k.hex(), p.hex()) for k, p in link_keys], refused_partner=refused.hex() if refused else None, children=[c.hex() for c in children],
-                               child_addr={c.hex(): a for c, a in child_addr.items()}, hashed=hashed, node_ieee=node_ieee.hex(),
-                               tc_unknown=tc_unknown, tc_key=tc_key.hex(), ncp_eui64=cur_eui.hex())
-        acc.case()
-        n0 = len(ncp.requests)
-        # ---- write, then read back
-        try:
-            await app.write_network_info(network_info=ni, node_info=no)
-        except BaseException as ex:  # noqa: BLE001
-            import traceback
+        case0, existing0 = case, existing
 
-            acc.violation("C14/write/raised", f"write_network_info raised {ex!r}", case,
-                          [(r[1], r[5]) for r in ncp.requests[n0:]][-25:] + traceback.format_exc().splitlines()[-6:])
-            return
-        try:
-            await app.load_network_info(load_devices=True)
-        except BaseException as ex:  # noqa: BLE001
-            import traceback
+        async def round_trip(rep):
+            # the address the NCP has once a restored (NV3) address is wiped: what a write starts from
+            cur_now = bytes(net.eui64())
+            cur_eui = bytes(net.mfg[ncpmodel.MFG_CUSTOM_EUI_64]) if net.mfg[ncpmodel.MFG_CUSTOM_EUI_64] != ncpmodel.FF8 else bytes(net.eui64_factory)
+            log0 = len(net.log)
+            net.refuse_partners.clear()
+            case = dict(case0, restore_number=rep + 1)
+            existing = existing0 or rep > 0
+            # ---- generate
+            kts = 12 if V == 7 else 4
+            nkeys = rnd.choice([0, 1, 2, kts])
+            nchild = rnd.choice([0, 1, 3, 6])
+            hashed = rnd.randbytes(16).hex() if rnd.random() < 0.6 else None
+            same_ieee = rnd.random() < 0.4
+            node_ieee = cur_eui if same_ieee else bytes([0xC0 + it % 16]) + rnd.randbytes(7)
+            if rep > 0 and rnd.random() < 0.6:
+                # a further restore for the address the NCP runs with right now (possibly a restored one)
+                node_ieee = cur_now
+                same_ieee = node_ieee == cur_eui
+                if not same_ieee:
+                    acc.hit("restore_again_for_the_restored_address")
+            tc_unknown = rnd.random() < 0.3
+            tc_key = WELL_KNOWN if V > 4 else rnd.randbytes(16)
+            E = lambda b: zt.EUI64.deserialize(bytes(b))[0]  # noqa: E731
+            K = lambda b: zt.KeyData.deserialize(bytes(b))[0]  # noqa: E731
+            special_keys = [bytes(16), b"\xff" * 16, bytes(range(16)), WELL_KNOWN]
+            nwk_key = rnd.choice([rnd.randbytes(16)] * 3 + special_keys[:3])
+            link_keys = [(rnd.choice([rnd.randbytes(16)] * 4 + special_keys), bytes([0xD0 + i]) + rnd.randbytes(7)) for i in range(nkeys)]
+            if nwk_key in special_keys or any(k_ in special_keys for k_, _ in link_keys):
+                acc.hit("boundary_key_values")
+            refused = None
+            if nkeys >= 2 and rnd.random() < 0.4:
+                # the NCP refuses one link key that is not the last one (whatever its reason): the
+                # keys it does accept - before and after - must still make the round trip
+                refused = link_keys[rnd.randrange(nkeys - 1)][1]
+                net.refuse_partners[refused] = rnd.choice(["invalid_call", "fatal", "bad_argument"])
+            children = [bytes([0xE0 + i]) + rnd.randbytes(7) for i in range(nchild)]
+            child_addr = {c: rnd.randrange(1, 0xFFF0) for i, c in enumerate(children) if i % 3 != 2}
+            w = dict(pan_id=rnd.choice([1, 0xFFFE - 1, 0x0000, rnd.randrange(1, 0xFFFE), rnd.randrange(1, 0xFFFE)]),
+                     ext=rnd.choice([rnd.randbytes(8), rnd.randbytes(8), bytes(8), bytes([1]) + bytes(7)]), channel=rnd.randrange(11, 27),
+                     mask=rnd.choice([0x07FFF800, 1 << 15, (1 << 11) | (1 << 25), 1 << 26, 1 << 11]), update_id=rnd.choice([0, 255, rnd.randrange(256)]),
+                     nwk_key=nwk_key, nwk_seq=rnd.choice([0, 255, rnd.randrange(256)]),
+                     nwk_fc=rnd.choice([0, 0, 1, 0xFFFFFFFF, rnd.getrandbits(32), rnd.getrandbits(32)]),
+                     tc_fc=rnd.choice([0, rnd.getrandbits(32)]))
+            ni = zigpy.state.NetworkInfo(
+                extended_pan_id=zt.ExtendedPanId.deserialize(w["ext"])[0], pan_id=zt.PanId(w["pan_id"]),
+                nwk_update_id=zt.uint8_t(w["update_id"]), nwk_manager_id=zt.NWK(0x0000), channel=zt.uint8_t(w["channel"]),
+                channel_mask=zt.Channels(w["mask"]), security_level=zt.uint8_t(5),
+                network_key=zigpy.state.Key(key=K(nwk_key), tx_counter=w["nwk_fc"], seq=w["nwk_seq"]),
+                tc_link_key=zigpy.state.Key(key=K(tc_key), tx_counter=w["tc_fc"], partner_ieee=E(UNKNOWN if tc_unknown else node_ieee)),
+                key_table=[zigpy.state.Key(key=K(k), partner_ieee=E(p), tx_counter=0, rx_counter=0) for k, p in link_keys],
+                children=[E(c) for c in children], nwk_addresses={E(c): zt.NWK(a) for c, a in child_addr.items()},
+                stack_specific={"ezsp": {"hashed_tclk": hashed}} if hashed else {}, source="rtmon")
+            no = zigpy.state.NodeInfo(nwk=zt.NWK(0x0000), ieee=E(node_ieee), logical_type=zdo_t.LogicalType.Coordinator)
+            case["written"] = {k: (v.hex() if isinstance(v, bytes) else v) for k, v in w.items()}
+            case["written"].update(link_keys=[(k.hex(), p.hex()) for k, p in link_keys], refused_partner=refused.hex() if refused else None, children=[c.hex() for c in children],
+                                   child_addr={c.hex(): a for c, a in child_addr.items()}, hashed=hashed, node_ieee=node_ieee.hex(),
+                                   tc_unknown=tc_unknown, tc_key=tc_key.hex(), ncp_eui64=cur_eui.hex())
+            acc.case()
+            n0 = len(ncp.requests)
+            # ---- write, then read back
+            try:
+                await app.write_network_info(network_info=ni, node_info=no)
+            except BaseException as ex:  # noqa: BLE001
+                import traceback
 
-            acc.violation("C14/read/raised", f"load_network_info raised {ex!r}", case,
-                          [(r[1], r[5]) for r in ncp.requests[n0:]][-25:] + traceback.format_exc().splitlines()[-6:])
-            return
-        r = app.state.network_info
-        rn = app.state.node_info
-        bad = []
+                acc.violation("C14/write/raised", f"write_network_info raised {ex!r}", case,
+                              [(r[1], r[5]) for r in ncp.requests[n0:]][-25:] + traceback.format_exc().splitlines()[-6:])
+                return False
+            try:
+                await app.load_network_info(load_devices=True)
+            except BaseException as ex:  # noqa: BLE001
+                import traceback
 
-        def cmp(name, got, want):
-            if got != want:
-                bad.append((f"C14/roundtrip/{name}", f"{name}: read back {got!r}, written {want!r}"))
+                acc.violation("C14/read/raised", f"load_network_info raised {ex!r}", case,
+                              [(r[1], r[5]) for r in ncp.requests[n0:]][-25:] + traceback.format_exc().splitlines()[-6:])
+                return False
+            r = app.state.network_info
+            rn = app.state.node_info
+            bad = []
 
-        cmp("pan_id", int(r.pan_id), w["pan_id"])
-        cmp("extended_pan_id", bytes(r.extended_pan_id.serialize()), w["ext"])
-        cmp("channel", int(r.channel), w["channel"])
-        cmp("channel_mask", int(r.channel_mask), w["mask"])
-        cmp("nwk_update_id", int(r.nwk_update_id), w["update_id"])
-        cmp("network_key", bytes(r.network_key.key.serialize()), nwk_key)
-        cmp("network_key_seq", int(r.network_key.seq), w["nwk_seq"])
-        wrote_eui = (not same_ieee) and nv3 and V >= 9  # the NV3 token interface exists from v9 on
-        exp_ieee = node_ieee if (same_ieee or wrote_eui) else cur_eui
-        if wrote_eui:
-            acc.hit("eui64_rewritten")
-        elif not same_ieee:
-            acc.hit("eui64_not_writable")
-        cmp("node_ieee", bytes(rn.ieee.serialize()), exp_ieee)
-        rh = r.stack_specific.get("ezsp", {}).get("hashed_tclk")
-        if V > 4:
-            cmp("tc_link_key", bytes(r.tc_link_key.key.serialize()), WELL_KNOWN)
-            if hashed:
-                cmp("hashed_tclk", rh, hashed)
-                acc.hit("hashed_present")
-            else:
-                acc.hit("hashed_absent")
-                if not rh or len(rh) != 32:
-                    bad.append(("C14/roundtrip/hashed_tclk", f"no hashed link key in stack-specific data after the round trip: {rh!r}"))
-                elif bytes.fromhex(rh) != net.security["preconfigured"]:
-                    bad.append(("C14/roundtrip/hashed_tclk", "hashed link key read back differs from the key stored in the NCP"))
-        else:
-            cmp("tc_link_key", bytes(r.tc_link_key.key.serialize()), tc_key)
-            if rh:
-                bad.append(("C14/roundtrip/hashed_tclk", "v4 read back a hashed link key"))
-        got_keys = sorted((bytes(k.key.serialize()), bytes(k.partner_ieee.serialize())) for k in r.key_table)
-        cmp("link_key_table", [(a.hex(), b.hex()) for a, b in got_keys], [(a.hex(), b.hex()) for a, b in sorted(link_keys) if b != refused])
-        if link_keys:
-            acc.hit("link_keys_written")
-        if refused is not None and any(x[0] == "link_key_refused" for x in net.log):
-            acc.hit("link_key_refused_midway")
-        if V >= 5:
-            cmp("network_key_frame_counter", int(r.network_key.tx_counter), w["nwk_fc"])
-            acc.hit("frame_counter_checked")
-            if w["nwk_fc"] == 0 and existing:
-                acc.hit("zero_frame_counter_over_existing_network")
-        if V >= 9:
-            want_children = sorted(c.hex() for c in child_addr)
-            cmp("children", sorted(bytes(c.serialize()).hex() for c in r.children), want_children)
-            got_addr = {bytes(k.serialize()).hex(): int(v) for k, v in r.nwk_addresses.items()}
-            for c, a in child_addr.items():
-                if got_addr.get(c.hex()) != a:
-                    bad.append(("C14/roundtrip/child_address", f"child {c.hex()}: address {got_addr.get(c.hex())}, written {a}"))
-            if child_addr:
-                acc.hit("children_written")
-            acc.hit("children_checked")
-        # ---- the security state the NCP saw, decoded at byte level
-        sis = [x for x in net.log if x[0] == "setInitialSecurityState"]
-        if len(sis) != 1:
-            bad.append(("C14/security/state-not-sent-once", f"setInitialSecurityState seen {len(sis)} times"))
-        else:
-            raw = sis[0][1]
-            b = raw[len(X.request_header(V, 0, 0)):]
-            if len(b) != 43:
-                bad.append(("C14/security/state-length", f"security state body has {len(b)} bytes"))
-            else:
-                bm = b[0] | b[1] << 8
-                pre, nk, sq, tce = b[2:18], b[18:34], b[34], b[35:43]
-                tc_known = not (tc_unknown and wrote_eui)
-                exp_pre = (bytes.fromhex(rh) if (V > 4 and rh) else tc_key)
-                if V > 4 and hashed:
-                    exp_pre = bytes.fromhex(hashed)
-                checks = [
-                    ("have-preconfigured-key-flag", bool(bm & 0x0100), True),
-                    ("have-network-key-flag", bool(bm & 0x0200), True),
-                    ("have-trust-center-eui64-flag", bool(bm & 0x0040), tc_known),
-                    ("hashed-link-key-flag", (bm & 0x0084) == 0x0084 if V > 4 else bool(bm & 0x0080), V > 4),
-                    ("network-key", nk.hex(), nwk_key.hex()),
-                    ("network-key-sequence", sq, w["nwk_seq"]),
-                    ("preconfigured-key", pre.hex(), exp_pre.hex()),
-                ]
-                if tc_known:
-                    checks.append(("trust-center-eui64", tce.hex(), (exp_ieee if not tc_unknown else exp_ieee).hex()))
+            def cmp(name, got, want):
+                if got != want:
+                    bad.append((f"C14/roundtrip/{name}", f"{name}: read back {got!r}, written {want!r}"))
+
+            cmp("pan_id", int(r.pan_id), w["pan_id"])
+            cmp("extended_pan_id", bytes(r.extended_pan_id.serialize()), w["ext"])
+            cmp("channel", int(r.channel), w["channel"])
+            cmp("channel_mask", int(r.channel_mask), w["mask"])
+            cmp("nwk_update_id", int(r.nwk_update_id), w["update_id"])
+            cmp("network_key", bytes(r.network_key.key.serialize()), nwk_key)
+            cmp("network_key_seq", int(r.network_key.seq), w["nwk_seq"])
+            wrote_eui = (not same_ieee) and nv3 and V >= 9  # the NV3 token interface exists from v9 on
+            exp_ieee = node_ieee if (same_ieee or wrote_eui) else cur_eui
+            if wrote_eui:
+                acc.hit("eui64_rewritten")
+            elif not same_ieee:
+                acc.hit("eui64_not_writable")
+            cmp("node_ieee", bytes(rn.ieee.serialize()), exp_ieee)
+            rh = r.stack_specific.get("ezsp", {}).get("hashed_tclk")
+            if V > 4:
+                cmp("tc_link_key", bytes(r.tc_link_key.key.serialize()), WELL_KNOWN)
+                if hashed:
+                    cmp("hashed_tclk", rh, hashed)
+                    acc.hit("hashed_present")
                 else:
-                    acc.hit("tc_address_unknown")
-                for nm, got, want in checks:
-                    if got != want:
-                        bad.append((f"C14/security/{nm}", f"security state sent to the NCP: {nm} is {got!r}, expected {want!r} (bitmask {bm:#06x})"))
-                acc.hit("security_state_decoded")
-        for key, msg in bad[:4]:
-            acc.violation(key, msg, case, [(r_[1], r_[5]) for r_ in ncp.requests[n0:]][:80])
-        acc.nontrivial((V, nv3, it, w["pan_id"], nwk_key))
-        if len(acc.samples) < 1:
-            acc.sample({"case": case, "commands_seen_by_ncp": [r_[1] for r_ in ncp.requests[n0:]][:70]})
+                    acc.hit("hashed_absent")
+                    if not rh or len(rh) != 32:
+                        bad.append(("C14/roundtrip/hashed_tclk", f"no hashed link key in stack-specific data after the round trip: {rh!r}"))
+                    elif bytes.fromhex(rh) != net.security["preconfigured"]:
+                        bad.append(("C14/roundtrip/hashed_tclk", "hashed link key read back differs from the key stored in the NCP"))
+            else:
+                cmp("tc_link_key", bytes(r.tc_link_key.key.serialize()), tc_key)
+                if rh:
+                    bad.append(("C14/roundtrip/hashed_tclk", "v4 read back a hashed link key"))
+            got_keys = sorted((bytes(k.key.serialize()), bytes(k.partner_ieee.serialize())) for k in r.key_table)
+            cmp("link_key_table", [(a.hex(), b.hex()) for a, b in got_keys], [(a.hex(), b.hex()) for a, b in sorted(link_keys) if b != refused])
+            if link_keys:
+                acc.hit("link_keys_written")
+            if refused is not None and any(x[0] == "link_key_refused" for x in net.log[log0:]):
+                acc.hit("link_key_refused_midway")
+            if V >= 5:
+                cmp("network_key_frame_counter", int(r.network_key.tx_counter), w["nwk_fc"])
+                acc.hit("frame_counter_checked")
+                if w["nwk_fc"] == 0 and existing:
+                    acc.hit("zero_frame_counter_over_existing_network")
+            if V >= 9:
+                want_children = sorted(c.hex() for c in child_addr)
+                cmp("children", sorted(bytes(c.serialize()).hex() for c in r.children), want_children)
+                got_addr = {bytes(k.serialize()).hex(): int(v) for k, v in r.nwk_addresses.items()}
+                for c, a in child_addr.items():
+                    if got_addr.get(c.hex()) != a:
+                        bad.append(("C14/roundtrip/child_address", f"child {c.hex()}: address {got_addr.get(c.hex())}, written {a}"))
+                if child_addr:
+                    acc.hit("children_written")
+                acc.hit("children_checked")
+            # ---- the security state the NCP saw, decoded at byte level
+            sis = [x for x in net.log[log0:] if x[0] == "setInitialSecurityState"]
+            if len(sis) != 1:
+                bad.append(("C14/security/state-not-sent-once", f"setInitialSecurityState seen {len(sis)} times"))
+            else:
+                raw = sis[0][1]
+                b = raw[len(X.request_header(V, 0, 0)):]
+                if len(b) != 43:
+                    bad.append(("C14/security/state-length", f"security state body has {len(b)} bytes"))
+                else:
+                    bm = b[0] | b[1] << 8
+                    pre, nk, sq, tce = b[2:18], b[18:34], b[34], b[35:43]
+                    tc_known = not (tc_unknown and wrote_eui)
+                    exp_pre = (bytes.fromhex(rh) if (V > 4 and rh) else tc_key)
+                    if V > 4 and hashed:
+                        exp_pre = bytes.fromhex(hashed)
+                    checks = [
+                        ("have-preconfigured-key-flag", bool(bm & 0x0100), True),
+                        ("have-network-key-flag", bool(bm & 0x0200), True),
+                        ("have-trust-center-eui64-flag", bool(bm & 0x0040), tc_known),
+                        ("hashed-link-key-flag", (bm & 0x0084) == 0x0084 if V > 4 else bool(bm & 0x0080), V > 4),
+                        ("network-key", nk.hex(), nwk_key.hex()),
+                        ("network-key-sequence", sq, w["nwk_seq"]),
+                        ("preconfigured-key", pre.hex(), exp_pre.hex()),
+                    ]
+                    if tc_known:
+                        checks.append(("trust-center-eui64", tce.hex(), (exp_ieee if not tc_unknown else exp_ieee).hex()))
+                    else:
+                        acc.hit("tc_address_unknown")
+                    for nm, got, want in checks:
+                        if got != want:
+                            bad.append((f"C14/security/{nm}", f"security state sent to the NCP: {nm} is {got!r}, expected {want!r} (bitmask {bm:#06x})"))
+                    acc.hit("security_state_decoded")
+            for key, msg in bad[:4]:
+                acc.violation(key, msg, case, [(r_[1], r_[5]) for r_ in ncp.requests[n0:]][:80])
+            acc.nontrivial((V, nv3, it, rep, w["pan_id"], nwk_key))
+            if len(acc.samples) < 1:
+                acc.sample({"case": case, "commands_seen_by_ncp": [r_[1] for r_ in ncp.requests[n0:]][:70]})
+
+            return True
+
+        for rep in range(1 + (it % 3 == 0) + (it % 6 == 0)):
+            if not await round_trip(rep):
+                break
+            if rep:
+                acc.hit("several_restores_on_one_ncp")
 
     for it in range(desc["n"]):
         async def main(loop, it=it):
